@@ -313,7 +313,8 @@ fn special_names(ctx: &Ctx) -> Vec<(Case, bool)> {
             }
             let src = format!("o := {{\"zz\": 1}}\np := {{\"q\": o}}\nprint(\"before\")\nr := {read}\nprint(\"after\")\n");
             let mut e = Expect::err(b"before\n".to_vec());
-            e.diag = vec![DiagPred::WellFormed{max_line: 5}, DiagPred::MsgContains(vec![k.to_string()])];
+            // (The wording of the message is not part of the property.)
+            e.diag = vec![DiagPred::WellFormed{max_line: 5}];
             ctx.label("special property name: missing");
             out.push(mk("special_name_missing", src, e, format!("reading missing property '{k}' as {read}")));
         }
@@ -340,9 +341,9 @@ pub fn run(ctx: &Ctx) {
     enumerate(ctx, 1, 1);
     enumerate(ctx, 2, 1);
     if ctx.tier == Tier::Quick {
-        enumerate(ctx, 3, 24);
+        enumerate(ctx, 3, 8);
     } else {
         enumerate(ctx, 3, 1);
-        enumerate(ctx, 4, 200);
+        enumerate(ctx, 4, 40);
     }
 }
